@@ -5,6 +5,7 @@ package meta
 import (
 	"errors"
 	"fmt"
+	"math"
 	"regexp"
 	"sort"
 	"strconv"
@@ -1483,6 +1484,10 @@ func (n RangeNumber) Compare(v val.Value) (int64, error) {
 			return 0, nil
 		default:
 			if i, ok := v.(val.Int64able); ok {
+				if n.unsigned != nil && *n.unsigned > math.MaxInt64 {
+					// a bound no signed number (a length is one too) reaches
+					return 1, nil
+				}
 				a := n.getInt64()
 				b := i.Int64()
 				if a < b {
